@@ -62,16 +62,25 @@ impl MirroredClient {
             let pool = self.create_pool().await;
             let address = self.address.clone();
             loop {
-                let mut server = match pool.get().await {
-                    Ok(server) => server,
-                    Err(err) => {
-                        error!(
-                            "Failed to get connection from pool, Discarding message {:?}, {:?}",
-                            err,
-                            address.clone()
-                        );
-                        continue;
+                // The wait for a connection also listens for the exit signal: a mirror that is
+                // down must not keep this task alive after its server connection is gone.
+                let mut server = tokio::select! {
+                    _ = self.disconnect_rx.recv() => {
+                        info!("Got mirror exit signal, exiting {:?}", address.clone());
+                        break;
                     }
+
+                    connection = pool.get() => match connection {
+                        Ok(server) => server,
+                        Err(err) => {
+                            error!(
+                                "Failed to get connection from pool, Discarding message {:?}, {:?}",
+                                err,
+                                address.clone()
+                            );
+                            continue;
+                        }
+                    },
                 };
 
                 tokio::select! {
